@@ -113,6 +113,11 @@ pub fn run_parsers(x: &[u8], extra_polls: usize) -> ParserRun {
 }
 
 pub fn count_outcomes(st: &mut Stats, r: &ParserRun, resealed: bool) {
+    if let Ok(Ok(_)) = &r.complete {
+        if r.x_len >= 3 {
+            st.bump("probe", "complete.ok-nonempty");
+        }
+    }
     match &r.reference {
         Ok(_) => st.bump("probe", "ref.accept"),
         Err(Reject(why)) => st.add_dyn(format!("probe.ref.reject.{}", why.replace(' ', "-")), 1),
